@@ -507,9 +507,22 @@ impl ::core::ops::Sub<&Rhs> for &Rhs {
     type Output = Rhs;
     fn sub(self, rhs: &Rhs) -> Rhs { Rhs(crate::support::wop(10, self.0, rhs.0)) }
 }
+pub struct Lhs(pub u8);
+impl ::core::clone::Clone for Lhs { fn clone(&self) -> Lhs { Lhs(self.0) } }
+impl Lhs { pub fn clone(&self) -> Lhs { Lhs(0xEE) } }
+// a base impl that takes both operands by value: the derived reference forms clone them (through the trait, whatever `Clone` means at the use site)
+#[derive_ex(Add, AddAssign)]
+impl ::core::ops::Add<Lhs> for Lhs {
+    type Output = Lhs;
+    fn add(self, rhs: Lhs) -> Lhs { Lhs(crate::support::wop(1, self.0, rhs.0)) }
+}
 """, """
 pub fn check<S: Src>(s: &mut S) {
     let (a, b) = (s.u8(), s.u8());
+    assert!((&Lhs(a) + &Lhs(b)).0 == wop(1, a, b) && (&Lhs(a) + Lhs(b)).0 == wop(1, a, b) && (Lhs(a) + &Lhs(b)).0 == wop(1, a, b), "by-value-base-ref-forms");
+    let mut l = Lhs(a);
+    l += &Lhs(b);
+    assert!(l.0 == wop(1, a, b), "by-value-base-assign-ref");
     assert!((Rhs(a) - Rhs(b)).0 == wop(10, a, b), "val-val");
     assert!((&Rhs(a) - Rhs(b)).0 == wop(10, a, b), "ref-val");
     let mut x = Rhs(a);
@@ -653,6 +666,63 @@ pub fn check<S: Src>(s: &mut S) {
     let z = B3::V { _f: a, f: b, _self: a, _other: b, l: a, r: b };
     let z2 = B3::V { _f: a, f: b, _self: a, _other: s.u8(), l: a, r: b };
     assert!(z.clone() == z && (z == z2) == matches!(z2, B3::V { _other, .. } if _other == b) && z.partial_cmp(&z2).is_some(), "clone-eq-with-fields-named-like-prefixes");
+}
+""", unwind=66)
+    # 15. user macros called like the std macros: the generated code names no macro by its bare name (or only with the meaning the prelude gives it)
+    add("macros|user-macros-named-like-std-macros", "macros called matches / unreachable / panic / assert / stringify / concat / write / format_args / vec / todo in scope of the derive",
+        """
+macro_rules! matches { ($($t:tt)*) => { true }; }
+macro_rules! unreachable { ($($t:tt)*) => { () }; }
+macro_rules! panic { ($($t:tt)*) => { () }; }
+macro_rules! assert { ($($t:tt)*) => { () }; }
+macro_rules! debug_assert { ($($t:tt)*) => { () }; }
+macro_rules! assert_eq { ($($t:tt)*) => { () }; }
+macro_rules! stringify { ($($t:tt)*) => { "WRONG" }; }
+macro_rules! concat { ($($t:tt)*) => { "WRONG" }; }
+macro_rules! write { ($($t:tt)*) => { ::core::result::Result::Ok(()) }; }
+macro_rules! format_args { ($($t:tt)*) => { () }; }
+macro_rules! vec { ($($t:tt)*) => { () }; }
+macro_rules! todo { ($($t:tt)*) => { () }; }
+macro_rules! unimplemented { ($($t:tt)*) => { () }; }
+#[derive_ex(Clone, Default, PartialEq, Eq, PartialOrd, Ord, Hash)]
+pub enum M1 { #[default] A(u8), B { x: u8 }, C }
+#[derive_ex(PartialEq, PartialOrd)]
+pub struct M2 { #[partial_ord(by = crate::support::by_po_total::<1, u8>)] pub a: u8, pub b: u8 }
+#[derive_ex(PartialEq, Eq, PartialOrd, Ord)]
+pub struct M3 { #[ord(by = crate::support::by_ord::<1, u8>)] pub a: u8, #[ord(key = crate::support::kk::<2, _>(&$))] pub b: u8 }
+#[derive_ex(Add, AddAssign, Neg, Deref, DerefMut)]
+pub struct M4(pub W);
+#[derive_ex(Debug)]
+pub enum M5 { V { a: F, b: F }, U }
+pub mod twin {
+    use crate::support::F;
+    #[derive(Debug)]
+    pub enum M5 { V { a: F, b: F }, U }
+}
+""", CMP_ORACLE + """
+pub fn check<S: Src>(s: &mut S) {
+    use ::core::fmt::Write;
+    let (a, b, c, d) = (s.u8(), s.u8(), s.u8(), s.u8());
+    let mk = |s: &mut S, v: u8| match s.u8() % 3 { 0 => M1::A(v), 1 => M1::B { x: v }, _ => M1::C };
+    let k = |v: &M1| match v { M1::A(a) => [0, *a], M1::B { x } => [1, *x], M1::C => [2, 0] };
+    let (p, q) = (mk(s, a), mk(s, b));
+    let e = lex(&k(&p), &k(&q));
+    assert!((p == q) == (e == Ordering::Equal) && p.partial_cmp(&q) == Some(e) && p.cmp(&q) == e && k(&p.clone()) == k(&p), "enum-cmp-clone");
+    assert!(k(&M1::default()) == [0, 0], "enum-default");
+    let (x, y) = (M2 { a, b }, M2 { a: c, b: d });
+    let e2 = lex(&[a >> 1, b], &[c >> 1, d]);
+    assert!((x == y) == (e2 == Ordering::Equal) && x.partial_cmp(&y) == Some(e2), "eq-from-partial_ord-by");
+    let (u, v) = (M3 { a, b }, M3 { a: c, b: d });
+    let e3 = lex(&[a >> 1, b >> 2], &[c >> 1, d >> 2]);
+    assert!((u == v) == (e3 == Ordering::Equal) && u.cmp(&v) == e3 && u.partial_cmp(&v) == Some(e3), "eq-from-ord-by-and-eq-key");
+    let r = M4(W(a)) + M4(W(b));
+    assert!((r.0).0 == wop(1, a, b) && (*r).0 == wop(1, a, b), "ops");
+    let (m, t) = if s.bool() { (M5::V { a: F(a), b: F(b) }, twin::M5::V { a: F(a), b: F(b) }) } else { (M5::U, twin::M5::U) };
+    let mut k1 = Sink::new();
+    let mut k2 = Sink::new();
+    let _ = ::core::write!(k1, "{:?}", m);
+    let _ = ::core::write!(k2, "{:?}", t);
+    assert!(k1.same(&k2), "debug");
 }
 """, unwind=66)
     # 14. type parameters called like the primitive types the expansion writes in its signatures
